@@ -3,10 +3,10 @@ import os
 import sys
 sys.path.insert(0, os.path.join(os.path.dirname(os.path.abspath(__file__)), '..', 'fileio'))
 import fileio_proofs  # noqa: E402
-PROOFS = [fileio_proofs.dsf_proof(), fileio_proofs.bcf_proof(), fileio_proofs.md5file_proof()]
+PROOFS = [fileio_proofs.dsf_proof(), fileio_proofs.bcf_proof(), fileio_proofs.md5file_proof(), fileio_proofs.loadmem_proof()]
 EXPLANATION = ('Kernel of C14: in do_source_file() the md5 file is written only when the target already holds the bytes this run produced (after the rename, or after the '
                '"no change" unlink) -- precondition g_target_is_final of backup_create_md5_file_contract -- and it is written whenever an in-place run with backups completes.')
-K = ['K1 backup_copy_file: md5 of the data equals the recorded md5 (32 hex digits, case-insensitive) => EX_OK without touching the backup; otherwise the backup receives exactly data (pointer and length handed to fwrite, result checked) or the process exits non-zero',
+K = ['K4 load_mem_file: 0 means every byte of the file (st_size of them) was read into fm.raw - the text that is formatted and the bytes the backup receives - and decoded; a short read or an undecodable text never returns; a file that cannot be opened gives -1; the stream is closed', 'K1 backup_copy_file: md5 of the data equals the recorded md5 (32 hex digits, case-insensitive) => EX_OK without touching the backup; otherwise the backup receives exactly data (pointer and length handed to fwrite, result checked) or the process exits non-zero',
      'K2 backup_create_md5_file: whatever is written to the md5 file is the digest of the WHOLE file - every byte read and fed to the digest in order; a read error never leaves the digest of a prefix behind',
      'K3 md5 recorded after the target is final, and always recorded on a completed in-place run with backups']
 G = ['MD5::Calc is an arbitrary fixed digest (the first line of the md5 file, if present, is arbitrary text)',
